@@ -70,8 +70,21 @@ def run_checks(patch, props):
     try:
         subprocess.check_call(["rsync", "-a", "--exclude", ".git", "/repo/", tmp + "/"])
         rc, o = sh(["patch", "-p1", "-s", "--no-backup-if-mismatch", "-i", patch], cwd=tmp)
+        base = None
         if rc != 0:
-            return {"error": "patch does not apply: " + o[:200]}
+            # the change was written against an earlier commit (a later fix: commit touched the same
+            # lines): evaluate it on the newest commit it applies to
+            _, log = sh(["git", "-C", "/repo", "log", "--format=%h", "-60"])
+            for h in log.split():
+                shutil.rmtree(tmp, ignore_errors=True)
+                os.makedirs(tmp)
+                subprocess.check_call("git -C /repo archive %s | tar -x -C %s" % (h, tmp), shell=True)
+                rc, o = sh(["patch", "-p1", "-s", "--no-backup-if-mismatch", "-i", patch], cwd=tmp)
+                if rc == 0:
+                    base = h
+                    break
+            if rc != 0:
+                return {"error": "patch does not apply: " + o[:200]}
 
         rc, out = sh([ROOT + "/bin/rainlint", "-prop", ",".join(props), "-repo", tmp, "-verif", ROOT, "-no-evidence"], timeout=1200)
         res = {}
@@ -85,6 +98,8 @@ def run_checks(patch, props):
                 res[cur]["violations"].append(re.sub(r"/tmp/rainseed\.[^/]+/", "", l.strip())[:400])
         if not res:
             return {"error": out[-400:]}
+        if base:
+            res["_evaluated_on_commit"] = base
         return res
     finally:
         shutil.rmtree(tmp, ignore_errors=True)
@@ -109,7 +124,7 @@ def main():
                 os.makedirs(os.path.dirname(os.path.join(wt, place)), exist_ok=True)
                 shutil.copy(demo_file, os.path.join(wt, place))
             race = ["-race"] if re.search(r"go test[^\n]*\s-race\b", demo_txt) else []
-        demo_cmd = ["go", "test"] + race + ["-vet=off", "-count=1", "-timeout", "180s"] + (["-run", runpat] if runpat else []) + [pkg or "./" + os.path.dirname(place or "torrent/x") + "/"]
+            demo_cmd = ["go", "test"] + race + ["-vet=off", "-count=1", "-timeout", "180s"] + (["-run", runpat] if runpat else []) + [pkg or "./" + os.path.dirname(place or "torrent/x") + "/"]
             rc0, o0 = sh(demo_cmd, cwd=wt, timeout=400)
             meta["demo_without_change"] = "PASS" if rc0 == 0 else "FAIL(rc=%d)" % rc0
             rc, o = sh(["git", "apply", patch], cwd=wt)
@@ -139,7 +154,7 @@ def main():
         caught = sorted(p for p, r in checks.items() if isinstance(r, dict) and r.get("exit") == 1)
         meta["caught_by"] = caught
         meta["broken_checks"] = sorted(p for p, r in checks.items() if isinstance(r, dict) and r.get("exit") not in (0, 1))
-        d = os.path.join(ROOT, "seeded", "%s_%s" % (prop, k))
+        d = os.path.join(ROOT, "seeded", "%s_%d" % (prop, int(k) + int(os.environ.get("SEED_OFFSET", "0"))))
         os.makedirs(d, exist_ok=True)
         shutil.copy(patch, os.path.join(d, "patch.diff"))
         if os.path.exists(demo_file):
@@ -151,7 +166,7 @@ def main():
             shutil.copy(notes, os.path.join(d, "notes_from_author.md"))
         meta["what_i_ran"] = "tools/seed_eval.py: git worktree of /repo HEAD; demo without/with change; go build; full go test suite with change; all rainlint property checks on a scratch copy with the change applied"
         json.dump(meta, open(os.path.join(d, "meta.json"), "w"), indent=1)
-        print("%s_%s confirmed=%s demo(without/with)=%s/%s suite_bad=%s caught_by=%s broken=%s" % (
+        print("%s_%s(+off) confirmed=%s demo(without/with)=%s/%s suite_bad=%s caught_by=%s broken=%s" % (
             prop, k, meta["confirmed"], meta["demo_without_change"], meta["demo_with_change"],
             meta["existing_tests_failing_with_change"], caught, meta["broken_checks"]))
         for p in caught:
